@@ -950,6 +950,12 @@ def run_write(case, drv, then_read=False):
     problems, findings = [], set()
     if extras:
         problems.append("extra-columns:" + ",".join(extras))
+    try:        # the document must denote the chart as it still is: writing may not alter it
+        after, _ = observe(m)
+        if json.dumps(after, sort_keys=True) != json.dumps(ch, sort_keys=True):
+            problems.append("chart-changed-by-write")
+    except Unobservable as e:
+        problems.append("chart-unobservable-after-write:" + str(e))
     wire = None
     if impl[0] == "err":
         agree = model.get("err") == impl[1]
